@@ -716,9 +716,18 @@ def wait_parked(w, callers, timeout=40.0):
 
 def observe(w, callers, window, deadline, extra_threads=()):
     """Sample until everything is over, or until the DESIGN 2.4 quiescence
-    holds for `window` seconds."""
+    holds for `window` seconds.
+
+    A run of samples is quiescent while the *hard* facts do not change: bytes
+    moved on the link (none), link drained, is_active(), which calls are back,
+    which threads are alive.  Within such a run the stack state of every
+    thread (its paramiko frames, no line numbers) must be constant -> the
+    threads are parked -> "blocked"/"still_active"; or cycle through a
+    handful of recurring states -> a loop that produces nothing observable
+    -> "spinning" (a livelocked call never returns either)."""
     t_end = time.monotonic() + deadline
-    run_key, run_start, run_samples = None, None, 0
+    hard_key, run_start, run_samples = None, None, 0
+    states = {}
     vt, pt = w.V, w.P
     last = {}
     while True:
@@ -730,32 +739,52 @@ def observe(w, callers, window, deadline, extra_threads=()):
         pstack = stack_of(pt.ident, frames) if pt.is_alive() else None
         estacks = [stack_of(t.ident, frames) if t.is_alive() else None for t in extra_threads]
         drained = w.drained()
-        key = (
-            tuple(None if s is None else proj(s) for s in cstacks),
+        hard = (
+            tuple(s is None for s in cstacks),
             active,
+            vstack is None,
+            pstack is None,
+            tuple(s is None for s in estacks),
+            w.activity(),
+            drained,
+        )
+        soft = (
+            tuple(None if s is None else proj(s) for s in cstacks),
             None if vstack is None else proj(vstack),
             None if pstack is None else proj(pstack),
             tuple(None if s is None else proj(s) for s in estacks),
-            w.activity(),
-            drained,
         )
         last = dict(cstacks=cstacks, vstack=vstack, pstack=pstack, estacks=estacks, active=active, drained=drained)
         if all(c.done for c in callers) and not active and all(s is None for s in estacks):
             return "ok", dict(samples=run_samples, span=0.0), last
-        if key != run_key:
-            run_key, run_start, run_samples = key, now, 1
+        if hard != hard_key:
+            hard_key, run_start, run_samples, states = hard, now, 0, {}
+        run_samples += 1
+        if soft in states:
+            states[soft][0] += 1
         else:
-            run_samples += 1
+            states[soft] = [1, last]
         span = now - run_start
         if drained and span >= window and run_samples >= 8:
-            info = dict(samples=run_samples, span=round(span, 2))
-            if any(s is not None for s in estacks):
-                return "inject_blocked", info, last
-            if active:
-                return "still_active", info, last
-            return "blocked", info, last
+            parked = len(states) == 1
+            recurring = (not parked and run_samples >= 16 and len(states) <= 6
+                         and all(n >= 2 for n, _ in states.values()))
+            if parked or recurring:
+                info = dict(samples=run_samples, span=round(span, 2), distinct_stack_states=len(states))
+                if recurring:
+                    # report the most frequent state, and every place the callers were seen in
+                    info["spin_states"] = sorted(
+                        set(str(describe(cs)["innermost"]) for _, l in states.values() for cs in l["cstacks"] if cs))
+                    info["v_spin_states"] = sorted(
+                        set(str(describe(l["vstack"])["innermost"]) for _, l in states.values() if l["vstack"]))
+                    last = max(states.values(), key=lambda x: x[0])[1]
+                if any(s is not None for s in last["estacks"]):
+                    return "inject_blocked", info, last
+                if active:
+                    return "still_active", info, last
+                return ("blocked" if parked else "spinning"), info, last
         if now >= t_end:
-            return "unsettled", dict(samples=run_samples, span=round(span, 2)), last
+            return "unsettled", dict(samples=run_samples, span=round(span, 2), distinct_stack_states=len(states)), last
         time.sleep(0.25)
 
 
